@@ -37,16 +37,24 @@ Handshake `quic_handshake_establishes`, `quic_connection_exact` (= handshake, th
             `step_long_eq`    any `Params`: an emitted long-header packet's `decrypt_packet` IS `handle_frame` over its frames;
             `afterTls_hs`     `set_tls_decryptors` with the connection's key-log lines: never raises, idempotent — same suite
                               ⇒ the same RFC keys (`Keyed`), whatever was installed before (ClientHello: first offered suite);
-            `PTrace`          THE local hypothesis: on this history's CRYPTO inputs the concrete `QuicTlsSession` never raises,
+            `PTrace`          the local hypothesis: on this history's CRYPTO inputs the concrete `QuicTlsSession` never raises,
                               and whenever it leaves `new_data` set the client random is the connection's and the suite the
-                              selected one (except after a client Initial: first offered suite) — what `C02Hello.
-                              client_hello_parsed / server_hello_parsed / encrypted_extensions_parsed` and `C02Crypto.
-                              crypto_any_order_partial` say about conformant hellos; NOT yet derived from them here;
+                              selected one (except after a client Initial: first offered suite).
+                              DISCHARGED for conformant handshakes by `ptrace_of_conformant` (`ConfHs`: ClientHello of the
+                              RFC 8446 encoder in ANY cut / order / duplicates over the client Initials, ServerHello, the
+                              server's flight EE ‖ Certificate ‖ CertificateVerify ‖ Finished over any in-order cut, the
+                              client's Finished) — `ptrace_phase` (one space at a time: `Lemmas.CryptoStream.Inv`,
+                              `update_own_space`, `update_keeps_drained`) + `C02Hello.client_hello_parsed /
+                              server_hello_parsed / encrypted_extensions_parsed`; `quic_connection_exact_conformant`.
             `hs_packet_step`, `hs_turn`, `hs_loop`, `hs_feed_step`, `hs_feed_rest`: packet, coalescing loop, datagram, history.
           Further hypotheses: the key-log lines of this client random at EVERY handshake `handle_packet` call (not only from
           the ServerHello on: a ClientHello processed without them makes `dev_quic_keys` raise inside `handle_crypto_frame`,
           `new_data` stays set and the rest of that packet's frames is skipped — not modelled in the proof); Handshake packets
-          only after a server CRYPTO frame completed a hello (`HsPkOk.keys`); no 0-RTT, no Retry.
+          only after a server CRYPTO frame completed a hello (`HsPkOk.keys`, stated through the bookkeeping `Trk.keyed`;
+          `keyed_of_handshake`: `hkeyed` follows once the history has a Handshake packet); no 0-RTT.
+Retry     `quic_connection_exact_retry`: first Initial, Retry (`retry_feed` = `retry_resets` in the composed machine), new
+          Initial with the Retry SCID as DCID and a token (`after_retry_pre`: Initial keys of the NEW DCID, CID sets and
+          packet numbers of the first attempt kept), handshake (`quic_handshake_establishes_from`), 1-RTT.
 CRYPTO in 1-RTT: excluded (`DgOk.noCrypto`). Without the restriction the statement is FALSE for the code as it is: a 1-RTT
           CRYPTO frame carrying an EncryptedExtensions- or ServerHello-typed message makes `set_tls_decryptors` run again
           and resets the Application generations (replayed on the real tool: data after a key update is lost).
@@ -2838,4 +2846,85 @@ theorem quic_connection_exact_retry (hl : H.Lawful) (h32 : H.sha256.outLen = 32)
   rw [addressed_congr c c3 f4 f5 f6 f7 f8 f9]
 
 end RetryVariant
+section Keyed
+variable (maskFn : Dissect.MaskFn) (H : Crypto.Prims) (Pc : Cipher.Prims)
+
+theorem step_keyed_mono (t : Trk) (x : SPkt) (h : t.keyed = true) : (t.step x).keyed = true := by
+  simp [Trk.step, h]
+
+theorem run_keyed_mono (t : Trk) (qs : List PkH) (h : t.keyed = true) : (t.run qs).keyed = true := by
+  induction qs generalizing t with
+  | nil => exact h
+  | cons q qs ih => exact ih _ (step_keyed_mono t q.x h)
+
+theorem runDgs_keyed_mono (t : Trk) (ds : List DgH) (h : t.keyed = true) : (t.runDgs ds).keyed = true := by
+  induction ds generalizing t with
+  | nil => exact h
+  | cons d ds ih => exact ih _ (run_keyed_mono t d.pkts h)
+
+theorem run_keyed_of_handshake (L : SealLaws Pc) (dcid0 : Bytes) (sel : SuiteSel) (sh ch : Bytes) (t : Trk) (qs : List PkH)
+    (hok : HsPks maskFn H Pc L dcid0 sel sh ch t qs) (hex : ∃ q ∈ qs, q.x.level = .handshake) :
+    (t.run qs).keyed = true := by
+  induction qs generalizing t with
+  | nil => obtain ⟨q, hq, _⟩ := hex; cases hq
+  | cons q qs ih =>
+    obtain ⟨h1, h2⟩ := hok
+    obtain ⟨q', hq', hl⟩ := hex
+    rcases List.mem_cons.mp hq' with rfl | hq'
+    · exact run_keyed_mono _ qs (step_keyed_mono t q'.x (h1.keys hl))
+    · exact ih _ h2 ⟨q', hq', hl⟩
+
+/-- `hkeyed` of the connection theorems follows from the history itself as soon as it contains a Handshake-level packet:
+    `HsPkOk.keys` demanded the keys for it, and they stay (`set_tls_decryptors` is idempotent) -/
+theorem keyed_of_handshake (L : SealLaws Pc) (dcid0 : Bytes) (sel : SuiteSel) (sh ch : Bytes) (t : Trk) (ds : List DgH)
+    (hok : HsDgs maskFn H Pc L dcid0 sel sh ch t ds) (hex : ∃ d ∈ ds, ∃ q ∈ d.pkts, q.x.level = .handshake) :
+    (t.runDgs ds).keyed = true := by
+  induction ds generalizing t with
+  | nil => obtain ⟨d, hd, _⟩ := hex; cases hd
+  | cons d ds ih =>
+    obtain ⟨h1, h2⟩ := hok
+    obtain ⟨d', hd', hq⟩ := hex
+    rcases List.mem_cons.mp hd' with rfl | hd'
+    · exact runDgs_keyed_mono _ ds (run_keyed_of_handshake maskFn H Pc L dcid0 sel sh ch t d'.pkts h1.2.2 hq)
+    · exact ih _ h2 ⟨d', hd', hq⟩
+
+end Keyed
+/-! ### `ptrace_of_conformant` is not vacuous -/
+
+namespace ExConf
+open TLX.Spec.TlsHello TLX.Spec.TlsHandshakeFraming
+/-- ClientHello with a session id, three offered suites (first: 0x1303, selected later: 0x1301), ALPN `h3` and a QUIC
+    transport-parameters extension -/
+def chx : ClientHello :=
+  { legacyVersion := [3, 3], random := List.replicate 32 0x5a, sessionId := [1, 2, 3, 4],
+    cipherSuites := [[0x13, 0x03], [0x13, 0x01], [0x13, 0x02]], compression := [0],
+    extensions := some [⟨16, alpnBody [[0x68, 0x33]]⟩, ⟨57, [1, 2, 0x43, 0xe8]⟩, ⟨43, [2, 3, 4]⟩] }
+
+def shx : ServerHello :=
+  { legacyVersion := [3, 3], random := List.replicate 32 0x77, sessionIdEcho := [1, 2, 3, 4], cipherSuite := [0x13, 0x01],
+    compressionMethod := 0, extensions := some [⟨43, [3, 4]⟩] }
+
+/-- the ClientHello cut into three fragments, delivered last-first-(duplicate of the first)-middle; the server's flight cut
+    into two frames inside the Certificate -/
+def hsx : ConfHs :=
+  let M := encodeClientHello chx
+  let F := encodeEncryptedExtensions [⟨16, alpnBody [[0x68, 0x33]]⟩] ++
+    (handshake 11 [0, 0, 0, 5, 1, 2, 3, 4, 5] ++ (handshake 15 [8, 4, 0, 2, 9, 9] ++ handshake 20 [7, 7, 7, 7]))
+  { ch := chx, sh := shx, shExts := [⟨43, [3, 4]⟩], ee := [⟨16, alpnBody [[0x68, 0x33]]⟩],
+    cert := [0, 0, 0, 5, 1, 2, 3, 4, 5], cv := [8, 4, 0, 2, 9, 9], sfin := [7, 7, 7, 7], cfin := [6, 6, 6, 6],
+    chFrs := [M.take 10, (M.drop 10).take 30, M.drop 40],
+    chDl := [(40, M.drop 40, (M.drop 40).length), (0, M.take 10, 10), (0, M.take 10, 10),
+             (10, (M.drop 10).take 30, 30)],
+    chDups := [(0, M.take 10, 10)],
+    sFrs := [F.take 25, F.drop 25] }
+
+theorem hsx_ok : hsx.Ok := by
+  refine ⟨by decide, by decide, rfl, by decide, by decide, by decide, by decide, by decide, ⟨by decide, by decide⟩, ?_,
+    by decide, ⟨by decide, by decide⟩⟩
+  decide
+
+/-- `ptrace_of_conformant` applies: the local parser hypothesis for this handshake, without evaluating the parser -/
+example : PTrace chx.random [0x13, 0x01] {} hsx.ins := ptrace_of_conformant hsx hsx_ok
+
+end ExConf
 end TLX.Props.C02Capstone
